@@ -137,9 +137,11 @@ Definition gnmi_update1 (tr : tree noti) (n : noti) : ures :=
   | (p0, v0) :: _ =>
       match join_prefix_path (n_prefix n) (if n_atomic n then None else Some p0) with
       | None => UPanic
-      | Some [] => UPanic                         (* path[0] *)
-      | Some ((k :: _) as p) =>
-          if String.eqb k "meta" then UMeta else
+      | Some [] => URes tr [] true                (* "invalid path" (since 30e1165) *)
+      | Some ((k :: rest) as p) =>
+          if String.eqb k "meta" then
+            match rest with [] => URes tr [] true | _ :: _ => UMeta end
+          else
           match get tr p with
           | Some (Leaf old) =>
               if Z.ltb (n_ts n) (n_ts old) then URes tr [] true          (* ErrStale *)
@@ -194,9 +196,9 @@ Definition gnmi_remove1 (tr : tree noti) (n : noti) : ures :=
   | d :: _ =>
       match join_prefix_path (n_prefix n) (Some d) with
       | None => UPanic
-      | Some [] => UPanic
-      | Some ((k :: _) as p) =>
-          if String.eqb k "meta" then UMeta else
+      | Some p =>
+          (* an empty index path deletes everything older than the notification *)
+          if match p with k :: _ => String.eqb k "meta" | [] => false end then UMeta else
           let r := delete_cond tr p (fun old => Z.ltb (n_ts old) (n_ts n)) in
           match all_some (map (fun pv => to_delete_noti (n_ts n) (snd pv)) (snd r)) with
           | Some feed => URes (fst r) feed false
@@ -339,12 +341,13 @@ Fixpoint dedup_paths (l : list path) : list path :=
   | x :: r => if existsb (path_eqb x) r then dedup_paths r else x :: dedup_paths r
   end.
 
-(** addSubscription (a subscription without a path registers nothing) *)
+(** addSubscription (a subscription without a path registers the prefix alone,
+    since 601ff89) *)
 Definition sub_queries (pf : gpath) (subs : list (option gpath)) : list path :=
   dedup_paths
     (flat_map (fun sp =>
        match sp with
-       | None => []
+       | None => [to_strings (Some pf) true]
        | Some p =>
            [to_strings (Some pf) true
             ++ (if String.eqb (g_origin pf) "" && negb (String.eqb (g_origin p) "")
@@ -365,18 +368,11 @@ Definition noti_paths (n : noti) : list path :=
   ++ map (fun d => to_strings (Some (n_prefix n)) true ++ to_strings (Some d) false) (n_dels n).
 
 (** subscribe.UpdateNotification: how many times the leaf is offered to the
-    client's queue.  The [updated] set exists only for notifications with more
-    than one update/delete; with a single one every distinct matching query
-    offers once. *)
+    client's queue.  The [updated] set is always allocated (since 0aa714c), so a
+    client is offered a notification at most once, however many of its queries
+    and of the notification's paths match. *)
 Definition offers (qs : list path) (n : noti) : nat :=
-  let ps := noti_paths n in
-  if Nat.ltb 1 (List.length ps) then
-    if existsb (fun p => existsb (fun q => mmatch q p) qs) ps then 1%nat else 0%nat
-  else
-    match ps with
-    | [p] => List.length (filter (fun q => mmatch q p) qs)
-    | _ => 0%nat
-    end.
+  if existsb (fun p => existsb (fun q => mmatch q p) qs) (noti_paths n) then 1%nat else 0%nat.
 
 (** subscribe.isTargetDelete *)
 Definition is_target_delete (n : noti) : bool :=
